@@ -1,6 +1,6 @@
 import Proofs.C12Scalar
 /-!
-# C12: collection framing — list / set elements (structural step: element theorems as hypotheses)
+# C12: collection framing — list / set elements and tuple fields (structural step: element theorems as hypotheses)
 -/
 namespace C12Coll
 open ValueSpec Marshal C12Bytes
@@ -129,4 +129,143 @@ theorem cex_null_element_v2 :
   have h4 : encInt (toS 32 1) = [0, 0, 0, 1] := by decide
   simp [marshal, wrapSeq, marshalElems, collSize, collItem, marshalScalar, marshalIntColumn, optM, marshalIntKind, h1, h2, h3, h4]
 
+/-! ## tuples: every field through appendBytes (after the repairs of KF-C12-6 / KF-C12-7) -/
+
+/-- "the tuple field is marshalled as the specification says" -/
+def FieldOK (p : Nat) (viaIface : Bool) (t : CqlTy) (v : GoVal) (c : CqlVal) : Prop :=
+  (viaIface = true ∧ v = .nil ∧ c.isNull = true) ∨
+  (marshal p t v = .ok none ∧ c.isNull = true) ∨
+  (∃ b, marshal p t v = .ok (some b) ∧ b.length < 2^31 ∧ c.isNull = false ∧ specEnc p t c = some b)
+
+inductive FieldsOK (p : Nat) (viaIface : Bool) : List CqlTy → List GoVal → List CqlVal → Prop
+  | nil : FieldsOK p viaIface [] [] []
+  | cons {t v c ts vs cs} : FieldOK p viaIface t v c → FieldsOK p viaIface ts vs cs →
+      FieldsOK p viaIface (t :: ts) (v :: vs) (c :: cs)
+
+theorem appendBytes_null : appendBytes none = [255, 255, 255, 255] := by decide
+
+theorem appendBytes_some (b : Bytes) : appendBytes (some b) = tcEnc 4 b.length ++ b := by
+  simp [appendBytes, encInt_eq, tcEnc_toS32]
+
+/-- an untyped nil never marshals to bytes -/
+theorem marshal_nil_not_some (p : Nat) (t : CqlTy) (b : Bytes) : marshal p t .nil ≠ .ok (some b) := by
+  cases t <;> simp [marshal, marshalScalar, marshalVarcharColumn, marshalIntColumn, marshalVarintColumn]
+
+theorem isNil_eq {v : GoVal} (h : v.isNil = true) : v = .nil := by
+  cases v <;> simp [GoVal.isNil] at h ⊢
+theorem isNilPtr_eq {v : GoVal} (h : v.isNilPtr = true) : v = .nilptr := by
+  cases v <;> simp [GoVal.isNilPtr] at h ⊢
+
+/-- what one field contributes -/
+theorem field_item (p : Nat) (viaIface : Bool) (t : CqlTy) (v : GoVal) (c : CqlVal) (hf : FieldOK p viaIface t v c)
+    (sel : GoVal → Bool) (hsel : ∀ v, sel v = true → (viaIface = true ∧ v = .nil) ∨ v = .nilptr)
+    (hnil : viaIface = true → sel .nil = true) :
+    ∃ item, (if sel v then MRes.ok none else marshal p t v) = .ok item ∧
+      fieldOrNull c.isNull (specEnc p t c) = some (appendBytes item) := by
+  rcases hf with ⟨hi, hv, hc⟩ | ⟨hm, hc⟩ | ⟨b, hm, hl, hc, hs⟩
+  · subst hv
+    refine ⟨none, ?_, ?_⟩
+    · simp [hnil hi]
+    · simp [fieldOrNull, hc, bytesFrame, appendBytes_null]
+  · refine ⟨none, ?_, ?_⟩
+    · split <;> simp [hm]
+    · simp [fieldOrNull, hc, bytesFrame, appendBytes_null]
+  · refine ⟨some b, ?_, ?_⟩
+    · have : sel v = false := by
+        cases hs' : sel v
+        · rfl
+        · exfalso
+          rcases hsel v hs' with ⟨_, hv⟩ | hv
+          · subst hv; exact marshal_nil_not_some p t b hm
+          · subst hv; simp [marshal] at hm
+      simp [this, hm]
+    · simp [fieldOrNull, hc, hs, hl, bytesFrame, appendBytes_some]
+
+
+theorem marshalTupleIfaces_spec (p : Nat) :
+    ∀ (ts : List CqlTy) (vs : List GoVal) (cs : List CqlVal) (body : Bytes),
+      FieldsOK p true ts vs cs →
+      marshalTupleIfaces p ts vs = .ok (some body) → specEncFields p ts cs = some body
+  | [], vs, cs, body, hf, h => by
+    cases hf
+    simp [marshalTupleIfaces] at h
+    simp [specEncFields, h]
+  | t :: ts, vs, cs, body, hf, h => by
+    cases hf with
+    | cons hv hrest =>
+      rename_i v c vs' cs'
+      obtain ⟨item, hi, hspec⟩ := field_item p true t v c hv GoVal.isNil
+        (fun v hv => .inl ⟨rfl, isNil_eq hv⟩) (fun _ => rfl)
+      rw [marshalTupleIfaces, hi] at h
+      cases hr : marshalTupleIfaces p ts vs' with
+      | ok ob =>
+        cases ob with
+        | none => rw [hr] at h; simp at h
+        | some rest =>
+          rw [hr] at h
+          simp at h
+          have ih := marshalTupleIfaces_spec p ts vs' cs' rest hrest hr
+          simp [specEncFields, hspec, ih, h]
+      | err => rw [hr] at h; simp at h
+      | crash => rw [hr] at h; simp at h
+      | unmodelled => rw [hr] at h; simp at h
+
+theorem marshalTupleFields_spec (p : Nat) :
+    ∀ (ts : List CqlTy) (vs : List GoVal) (cs : List CqlVal) (body : Bytes),
+      FieldsOK p false ts vs cs →
+      marshalTupleFields p ts vs = .ok (some body) → specEncFields p ts cs = some body
+  | [], vs, cs, body, hf, h => by
+    cases hf
+    simp [marshalTupleFields] at h
+    simp [specEncFields, h]
+  | t :: ts, vs, cs, body, hf, h => by
+    cases hf with
+    | cons hv hrest =>
+      rename_i v c vs' cs'
+      obtain ⟨item, hi, hspec⟩ := field_item p false t v c hv GoVal.isNilPtr
+        (fun v hv => .inr (isNilPtr_eq hv)) (fun h => by cases h)
+      rw [marshalTupleFields, hi] at h
+      cases hr : marshalTupleFields p ts vs' with
+      | ok ob =>
+        cases ob with
+        | none => rw [hr] at h; simp at h
+        | some rest =>
+          rw [hr] at h
+          simp at h
+          have ih := marshalTupleFields_spec p ts vs' cs' rest hrest hr
+          simp [specEncFields, hspec, ih, h]
+      | err => rw [hr] at h; simp at h
+      | crash => rw [hr] at h; simp at h
+      | unmodelled => rw [hr] at h; simp at h
+
+theorem FieldsOK_length {p : Nat} {vi : Bool} {ts : List CqlTy} {vs : List GoVal} {cs : List CqlVal}
+    (h : FieldsOK p vi ts vs cs) : vs.length = ts.length := by
+  induction h with
+  | nil => rfl
+  | cons _ _ ih => simp [ih]
+
+/-- the whole tuple, every source shape -/
+theorem marshalTuple_spec (p : Nat) (ts : List CqlTy) (vs : List GoVal) (cs : List CqlVal) (b : Bytes) :
+    (FieldsOK p true ts vs cs → marshal p (.tuple ts) (.ifaces vs) = .ok (some b) → specEnc p (.tuple ts) (.tuple cs) = some b) ∧
+    (FieldsOK p false ts vs cs →
+      (marshal p (.tuple ts) (.struct vs) = .ok (some b) ∨ (∃ isNil, marshal p (.tuple ts) (.slice isNil vs) = .ok (some b)) ∨
+       marshal p (.tuple ts) (.array vs) = .ok (some b)) → specEnc p (.tuple ts) (.tuple cs) = some b) := by
+  constructor
+  · intro hall h
+    have hl := FieldsOK_length hall
+    simp only [marshal, hl, ne_eq, not_true_eq_false, if_false, wrapTuple] at h
+    split at h
+    · simp at h
+    · simp only [specEnc]
+      exact marshalTupleIfaces_spec p ts vs cs b hall h
+  · intro hall h
+    have hl := FieldsOK_length hall
+    have key : wrapTuple ts (marshalTupleFields p ts vs) = .ok (some b) := by
+      rcases h with h | ⟨isNil, h⟩ | h <;>
+        simpa only [marshal, hl, ne_eq, not_true_eq_false, if_false] using h
+    simp only [wrapTuple] at key
+    split at key
+    · simp at key
+    · simp only [specEnc]
+      exact marshalTupleFields_spec p ts vs cs b hall key
 end C12Coll
